@@ -732,6 +732,19 @@ fn sc_toggles(t: &mut Tracer) {
     w.update_config(&o, Some(pm::FeatureToggle { pool_identifier: "o.zzz".into(), swaps_enabled: Some(true), deposits_enabled: None, withdrawals_enabled: None }), None, &[], "unknown pool");
     w.update_config(&o, Some(pm::FeatureToggle { pool_identifier: "o.ss1".into(), swaps_enabled: Some(true), deposits_enabled: None, withdrawals_enabled: None }), None, &[], "ss1 swaps on");
     w.swap(&a, "o.ss1", &[coin(1000, "uusd")], "uusdc", None, half, None);
+    // deposits switched off before the pool was ever funded: the first deposit is a deposit
+    {
+        let ok = w.creation_funds();
+        for (kind, id) in [(CP, "virgin"), (SS(85), "virgins")] {
+            w.create_pool(&o, &["uusdc", "uusdt"], &[6, 6], fees(100, 100, 0, &[]), kind, Some(id), &ok);
+            let pid = format!("o.{id}");
+            w.update_config(&o, Some(pm::FeatureToggle { pool_identifier: pid.clone(), swaps_enabled: None, deposits_enabled: Some(false), withdrawals_enabled: None }), None, &[], "deposits off before funding");
+            w.provide(&a, &pid, &sorted(vec![coin(1_000_000, "uusdc"), coin(1_000_000, "uusdt")]), None, None, None, None, None);
+            w.provide(&a, &pid, &sorted(vec![coin(1_000_000, "uusdc"), coin(1_000_000, "uusdt")]), None, Some(DAY), None, None, None);
+            w.update_config(&o, Some(pm::FeatureToggle { pool_identifier: pid.clone(), swaps_enabled: None, deposits_enabled: Some(true), withdrawals_enabled: None }), None, &[], "deposits on");
+            w.provide(&a, &pid, &sorted(vec![coin(1_000_000, "uusdc"), coin(1_000_000, "uusdt")]), None, None, None, None, None);
+        }
+    }
     // the swap switch of a three-asset pool does not concern deposits that bring some but not all of its assets
     w.update_config(&o, Some(pm::FeatureToggle { pool_identifier: "o.ss3".into(), swaps_enabled: Some(false), deposits_enabled: None, withdrawals_enabled: None }), None, &[], "ss3 swaps off");
     w.provide(&a, "o.ss3", &sorted(vec![coin(10_000_000, "uusd"), coin(11_000_000, "uusdt")]), None, None, None, None, None);
@@ -823,6 +836,11 @@ fn sc_slippage(t: &mut Tracer, ss_decs: [u8; 2], name: &str) {
             for skew in [1005u128, 1100, 2000] {
                 let f = sorted(vec![coin(r[0] / 1000, names[0].clone()), coin(r[1] * skew / 1_000_000, names[1].clone())]);
                 w.provide(&a, pool, &f, None, None, None, Some(tol), None);
+                // the same skewed deposit with the LP locked: the tolerance applies all the same
+                if skew != 1100 {
+                    let f = sorted(vec![coin(r[0] / 1000, names[0].clone()), coin(r[1] * skew / 1_000_000, names[1].clone())]);
+                    w.provide(&a, pool, &f, None, Some(DAY), None, Some(tol), None);
+                }
             }
         }
     }
